@@ -167,7 +167,6 @@ Lemma set_symbolic_ref_spec d n t d' r :
   end.
 Proof.
   unfold set_symbolic_ref. destruct (pre_collide n d); [intros H; inversion H; subst; reflexivity|].
-  destruct (follow (dread d) n); [|intros H; inversion H; subst; reflexivity].
   destruct (post_collide n d); intros H; inversion H; subst; [reflexivity|].
   intros q. unfold dread, upd. cbn [loose packed]. rewrite rget_rset. destruct (bytes_beq q n); reflexivity.
 Qed.
